@@ -275,10 +275,14 @@ class Chemicals:
         return f"{type(self).__name__}([{', '.join(self.__dict__)}])"
 
 
-def _unpickle_compiled_chemicals(chemicals, groups):
+def _unpickle_compiled_chemicals(chemicals, groups, aliases=None):
     self = CompiledChemicals(chemicals)
     for name, (IDs, composition) in groups.items(): # Chemical groups are not derived from the chemicals
         if name not in self._group_mol_compositions: self.define_group(name, IDs, composition)
+    if aliases: # A user alias may be a name that compiling drops (e.g. a formula two chemicals share)
+        dct = self.__dict__
+        for name, ID in aliases.items():
+            if name not in dct: self.set_alias(ID, name)
     return self
 
 @utils.read_only(methods=('append', 'extend', '__setitem__'))
@@ -382,7 +386,9 @@ class CompiledChemicals(Chemicals):
     def __reduce__(self):
         groups = {name: ([i.ID for i in self.__dict__[name]], self._group_mol_compositions[name].tolist())
                   for name in self._group_mol_compositions}
-        return _unpickle_compiled_chemicals, (self.tuple, groups)
+        IDs = self.IDs
+        aliases = {name: IDs[i] for name, i in self._index.items() if isinstance(i, int) and isinstance(name, str)}
+        return _unpickle_compiled_chemicals, (self.tuple, groups, aliases)
     
     def compile(self, skip_checks=False):
         """Do nothing, CompiledChemicals objects are already compiled.""" 
